@@ -530,10 +530,17 @@ def populate (s : Schema) : Nat → String → List OA → List OA
         | some acc' => if marksDerived a then acc' else acc
         | none => acc ++ [{ name := a.name, creator := n, deriver := a.kind == .derived }]) l1
 
-/-- `dedupList`: first occurrence of (name, creator) stays -/
-def dedupOA : List OA → List OA → List OA
+/-- `dedupList`: the first occurrence of (name, creator) stays; `m`: it takes over the "derived by" mark of the repeated entry that
+    is removed (fix C02-11) — the attribute is derived when ANY supertype path redeclares it in a DERIVE clause -/
+def dedupOAM (m : Bool) : List OA → List OA → List OA
   | acc, [] => acc
-  | acc, x :: xs => if acc.any (fun y => y.name == x.name && y.creator == x.creator) then dedupOA acc xs else dedupOA (acc ++ [x]) xs
+  | acc, x :: xs =>
+    if acc.any (fun y => y.name == x.name && y.creator == x.creator) then
+      dedupOAM m (if m && x.deriver then
+        acc.map (fun y => if y.name == x.name && y.creator == x.creator then { y with deriver := true } else y) else acc) xs
+    else dedupOAM m (acc ++ [x]) xs
+
+def dedupOA : List OA → List OA → List OA := dedupOAM dedupMergesDeriver
 
 /-- the `MakeDerived( name, creator )` calls `initializeAttrs` prints into both constructors of `n` -/
 def derivedCalls (s : Schema) (n : String) : List (String × String) :=
